@@ -158,7 +158,7 @@ class Unit:
             if self._native is not None:
                 return self._native
             wp = self.wrapper_path() if self.wrapper_text is None else os.path.join(self.dir, 'wrap_gen.cpp')
-            flags = [self.std, '-O1', '-DNDEBUG', '-DVERIF_NATIVE', '-fno-access-control', '-w'] + self.incs() + self.cflags
+            flags = [self.std, '-O1', '-DNDEBUG', '-DVERIF_NATIVE', '-fno-access-control', '-w', '-ffunction-sections', '-fdata-sections'] + self.incs() + self.cflags
             jobs = [(wp, os.path.join(self.dir, 'n_wrap.o'))]
             for l in self.libs:
                 jobs.append((os.path.join(REPO, l), os.path.join(self.dir, 'n_' + re.sub(r'\W', '_', l) + '.o')))
@@ -348,7 +348,7 @@ def native_build(o, unit, mode, extra_defs=()):
         ho = exe + '.o'
         r = sh(['gcc', '-std=gnu11'] + common + ['-DNATIVE_REAL', '-DROOTS_H="%s.roots.h"' % unit.outc, '-c', hp, '-o', ho])
         if r.returncode == 0:
-            r = sh(['g++', ho] + objs + ['-o', exe])
+            r = sh(['g++', ho] + objs + ['-Wl,--gc-sections', '-Wl,--unresolved-symbols=ignore-all', '-no-pie', '-o', exe])
     if r.returncode != 0:
         raise BuildError('native %s build of %s failed:\n%s' % (mode, o.harness, (r.stdout + r.stderr)[-3000:]))
     return exe
@@ -616,6 +616,7 @@ def run_property(pid, mod, tier, seed, update_bounds=False, only=None):
     # --- verdict
     os.makedirs(os.path.join(VERIF, 'replays'), exist_ok=True)
     nviol = 0
+    seen_err = set()
     for r in results:
         o = [x for x in obls if x.id == r['id']][0]
         for k in r.get('known') or []:
@@ -640,7 +641,9 @@ def run_property(pid, mod, tier, seed, update_bounds=False, only=None):
             exit_code = max(exit_code, 4) if exit_code != 1 else 1
         elif r['verdict'] in ('BUILD-ERROR', 'INTERNAL-ERROR'):
             exit_code = max(exit_code, 3) if exit_code != 1 else 1
-            log('%s %s: %s' % (r['verdict'], r['id'], r.get('why')))
+            if r.get('why') not in seen_err:
+                seen_err.add(r.get('why'))
+                log('%s %s: %s' % (r['verdict'], r['id'], r.get('why')))
         elif r['verdict'] == 'C13-REPORT':
             log('C13-REPORT %s: standard check(s) failed: %s (inputs %s) -- triaged by reading, see DESIGN.md' % (r['id'], '; '.join(r['failed'][:4]), r['cex_inputs']))
     if update_bounds:
